@@ -63,7 +63,10 @@ def make_sink(sock):
   s._socket = sock
   s._state = ChannelState.Open
   s._varz = _Varz()
-  s._processing = object()
+  class _G(object):
+    def kill(self, block=True):
+      pass
+  s._processing = _G()
   s._open_result = None
   return s
 
